@@ -265,12 +265,20 @@ whitespace, first token, "every whitespace run between two neighbouring tokens/c
 acceptable separator for the second one" (`sepOk`: `""`, `" "`, or one line break / one blank line
 followed by an indentation run; nothing at all in front of `;`), trailing whitespace. -/
 
-/-- SPACING NORMAL FORM. For every well-formed file of the fragment without parentheses and function
-    calls (`File.basic`: the container part of the fragment — the spacing proof has not been extended
-    to `( e )` / `f x` yet; no counterexample is known there, the decidable conclusion is evaluated on
-    every sample of every run) in which no one-line container
-    holds a comment in front of an item (`Src.beforeFlatB`: the items of a container without a line
-    break have empty leading trivia; see `cex_block_comment_after_opener`), the rebuilt file has
+/-- SPACING NORMAL FORM. For every well-formed file of the fragment without `assert` and with at
+    most one blank line between the colon of a lambda and its body (`File.basic`: containers,
+    parentheses, function calls, `with e; body`, select `e.a.b`, `or default`, lambda `x: body`, unary and
+    binary operators, any nesting — the spacing proof has not been extended to `assert e; body`, whose
+    trailing trivia are written between its `;` and its body; no counterexample is known there, the
+    decidable conclusion is evaluated on every sample of every run; the lambda clause is needed:
+    `cex_blank_lines_after_colon`) in which no one-line container holds
+    a comment in front of an item, no comment stands between `(` and a value on the same line, no comment
+    touches the function of a call whose argument is on the same line, and at most one blank line stands
+    in front of / after a binary operator (`Src.beforeFlatB`: the items of a container without a line
+    break, the value of a parenthesis whose leading gap has no line break and the argument of a call whose
+    gap has no line break have empty leading trivia; the two gaps of a binary operator hold at most two
+    line breaks; see `cex_block_comment_after_opener`, `cex_comment_after_open_paren`,
+    `cex_comment_touching_function`, `cex_blank_lines_around_operator`), the rebuilt file has
     no whitespace before its first token, every separator is in the formatter's normal form, `;`
     is attached, and the file ends with at most one blank line. -/
 theorem frag_spacing_nf (f : File) (s : Src) (hwf : f.wf = true) (_hws : f.noLeadingWs = true)
@@ -356,8 +364,8 @@ def frag_spacing_nf_grown_full : Prop :=
     column 0 (open finding `C18-spacing-space-run-parenthesized_expression`, the parenthesis analogue
     of `cex_block_comment_after_opener`; `expressions/parenthesis.py: rebuild` renders
     `value.rebuild(indent, inline=True)` and `add_trivia` writes `format_trivia(before, indent)`).
-    An extension of `frag_spacing_nf` to parentheses needs the exclusion "the value of a parenthesis
-    whose leading gap has no line break has no leading trivia". -/
+    Hence the clause of `beforeFlatB` for parentheses: "the value of a parenthesis whose leading gap
+    has no line break has no leading trivia". -/
 def parenCommentFile : File :=
   { items := .elem [] (.list (.elem "\n  ".toList (.paren (.cmt " ".toList "/* c */".toList
       (.elem " ".toList (.leaf .ident "x".toList) .nil)) []) .nil) "\n".toList) .nil,
@@ -370,7 +378,120 @@ theorem cex_comment_after_open_paren : ¬ frag_spacing_nf_grown_full := by
 
 example : parenCommentFile.flatten = "[\n  ( /* c */ x)\n]".toList := by decide
 example : parenCommentFile.roundtrip = .ok "[\n  (  /* c */\nx)\n]".toList := by decide
-example : parenCommentFile.basic = false := by decide
+example : (match parenCommentFile.parse with | .ok s => s.beforeFlatB | _ => true) = false := by decide
+
+/-- the spacing statement under `beforeFlatB` without its clause for calls (`beforeFlatP`) — false -/
+def frag_spacing_nf_nocall_full : Prop :=
+  ∀ (f : File) (s : Src), f.wf = true → f.noLeadingWs = true → f.parse = .ok s → s.beforeFlatP = true →
+    (summ s.rebuildP).fileOk = true
+
+/-- `{⏎  a = f/* c */ x;⏎}`: a comment that touches the function is not an end-of-line comment of the
+    function (`start_byte > function_node.end_byte` fails) and becomes leading trivia of the argument;
+    the argument stays on the function's line and is rendered `inline` after the own-line rendering of
+    the comment at the call's indentation: `a = f   /* c */⏎x;` — an indentation run after the
+    separating space, the argument at column 0 (`expressions/function/call.py: from_cst` /
+    `rebuild`). Hence the clause of `beforeFlatB` for calls: "the argument of a call whose gap has no
+    line break has no leading trivia". -/
+def callCommentFile : File :=
+  { items := .elem [] (.set false [] (.bind "\n  ".toList "a".toList [] " ".toList [] " ".toList
+      (.app (.leaf .ident "f".toList) [([], "/* c */".toList)] " ".toList (.leaf .ident "x".toList)) [] [] .nil)
+      "\n".toList) .nil,
+    endGap := [] }
+
+theorem cex_comment_touching_function : ¬ frag_spacing_nf_nocall_full := by
+  intro h
+  have := h callCommentFile _ (by decide) (by decide) rfl (by decide)
+  revert this; decide
+
+example : callCommentFile.flatten = "{\n  a = f/* c */ x;\n}".toList := by decide
+example : callCommentFile.roundtrip = .ok "{\n  a = f   /* c */\nx;\n}".toList := by decide
+example : (match callCommentFile.parse with | .ok s => s.beforeFlatB | _ => true) = false := by decide
+
+/-- `a⏎⏎⏎  + b`: `BinaryExpression.from_cst` counts the line breaks of the gap in front of the operator
+    (`gap_line_info`) and `rebuild` writes as many — two blank lines stay (the same after the operator).
+    Same root cause as the open finding `C18-spacing-blank-lines-binary_expression`. Hence the clause
+    of `beforeFlatB` for binary operators (`beforeFlatG` carries `beforeFlatB` through them without it). -/
+def binBlankFile : File :=
+  { items := .elem [] (.bin (.leaf .ident "a".toList) [] "\n\n\n  ".toList "+".toList [] " ".toList (.leaf .ident "b".toList)) .nil,
+    endGap := "\n".toList }
+
+theorem cex_blank_lines_around_operator : ¬ frag_spacing_nf_grown_full := by
+  intro h
+  have := h binBlankFile _ (by decide) (by decide) rfl (by decide)
+  revert this; decide
+
+example : binBlankFile.flatten = "a\n\n\n  + b\n".toList := by decide
+example : binBlankFile.roundtrip = .ok "a\n\n\n+ b\n".toList := by decide
+example : binBlankFile.basic = true ∧ (match binBlankFile.parse with | .ok s => s.beforeFlatB | _ => true) = false := by decide
+
+/-- the spacing statement without `File.basic` (`beforeFlatB` keeps `with` / `assert` out by itself) — false -/
+def frag_spacing_nf_nobasic_full : Prop :=
+  ∀ (f : File) (s : Src), f.wf = true → f.noLeadingWs = true → f.parse = .ok s → s.beforeFlatB = true →
+    (summ s.rebuildP).fileOk = true
+
+/-- `x:⏎⏎⏎  y`: `FunctionDefinition.from_cst` (`_collect_colon_trivia`) turns the first line break after
+    the colon into `breaks_after_semicolon` and every further one into a blank-line marker in front of
+    the body, and `rebuild` writes them all — two blank lines stay. Same root cause as the open finding
+    `C18-spacing-blank-lines-function_expression`. Hence the lambda clause of `File.basic`: at most two
+    line breaks between the colon and the body. -/
+def lamBlankFile : File :=
+  { items := .elem [] (.lam "x".toList [] [] [] "\n\n\n  ".toList (.leaf .ident "y".toList)) .nil, endGap := "\n".toList }
+
+theorem cex_blank_lines_after_colon : ¬ frag_spacing_nf_nobasic_full := by
+  intro h
+  have := h lamBlankFile _ (by decide) (by decide) rfl (by decide)
+  revert this; decide
+
+example : lamBlankFile.flatten = "x:\n\n\n  y\n".toList := by decide
+example : lamBlankFile.roundtrip = .ok "x:\n\n\ny\n".toList := by decide
+example : lamBlankFile.basic = false := by decide
+
+/-- `with` in the three layouts of its body (absorbed set, forced line break, inline), satisfying the hypotheses -/
+def withNfSample : File :=
+  { items := .elem [] (.list
+      (.elem "\n  ".toList (.paren (.elem [] (.kw true [] "  ".toList (.leaf .ident "a".toList) [] " ".toList [] "   ".toList
+          (.set false [] (.bind "\n".toList "x".toList [] " ".toList [] " ".toList (.leaf .int "1".toList) [] [] .nil) "\n".toList)) .nil) [])
+      (.elem "\n  ".toList (.paren (.elem [] (.kw true [] "\n\n     ".toList (.leaf .ident "b".toList) [] [] [] "\n\n\n ".toList
+          (.leaf .ident "y".toList)) .nil) [])
+      (.elem "\n  ".toList (.paren (.elem [] (.kw true [] " ".toList (.leaf .ident "c".toList) [] [] [] "\t".toList
+          (.leaf .ident "z".toList)) .nil) []) .nil))) "\n".toList) .nil,
+    endGap := "\n".toList }
+
+example : withNfSample.flatten =
+    "[\n  (with  a ;   {\nx = 1;\n})\n  (with\n\n     b;\n\n\n y)\n  (with c;\tz)\n]\n".toList := by decide
+example : withNfSample.roundtrip =
+    .ok "[\n  (with a; {\n    x = 1;\n  })\n  (with\n\n     b;\n\n  y)\n  (with c; z)\n]\n".toList := by decide
+example : withNfSample.wf = true ∧ withNfSample.noLeadingWs = true ∧ withNfSample.basic = true := by decide
+example : (match withNfSample.parse with | .ok s => s.beforeFlatB | _ => false) = true := by decide
+
+/-- select, `or`, lambda, unary and binary operators in non-canonical layouts, satisfying the hypotheses -/
+def opsSample : File :=
+  { items := .elem [] (.set false [] (.bind "\n  ".toList "a".toList [] " ".toList [] " ".toList
+      (.lam "x".toList [] [] [] "  ".toList
+        (.bin (.un "!".toList [] " ".toList (.selOr (.leaf .ident "x".toList) [] [] [] ["b".toList, "c".toList] [] "  ".toList " ".toList
+            (.leaf .ident "d".toList)))
+          [] "\n\n      ".toList "+".toList [] "\t".toList (.un "-".toList [] [] (.sel (.leaf .ident "y".toList) [] " ".toList [] ["e".toList]))))
+      [] [] .nil) "\n".toList) .nil,
+    endGap := "\n".toList }
+
+example : opsSample.flatten = "{\n  a = x:  ! x.b.c  or d\n\n      +\t-y .e;\n}\n".toList := by decide
+example : opsSample.roundtrip = .ok "{\n  a = x: !x.b.c or d\n\n  + -y.e;\n}\n".toList := by decide
+example : opsSample.wf = true ∧ opsSample.noLeadingWs = true ∧ opsSample.basic = true := by decide
+example : (match opsSample.parse with | .ok s => s.beforeFlatB | _ => false) = true := by decide
+
+/-- parentheses and calls in many layouts, with comments, satisfying the hypotheses -/
+def grownSample : File :=
+  { items := .elem [] (.set false [] (.bind "\n  ".toList "a".toList [] " ".toList [] " ".toList
+      (.app (.app (.leaf .ident "f".toList) [(" ".toList, "/* c */".toList)] " ".toList
+          (.paren (.elem "\n\n      ".toList (.leaf .ident "x".toList) (.cmt " ".toList "# e".toList .nil)) "\n   ".toList))
+        [("\n".toList, "# d".toList)] "\n\n\t".toList (.paren (.elem [] (.list .nil []) .nil) " ".toList)) [] [] .nil)
+      "\n".toList) .nil,
+    endGap := [] }
+
+example : grownSample.flatten = "{\n  a = f /* c */ (\n\n      x # e\n   )\n# d\n\n\t([] );\n}".toList := by decide
+example : grownSample.roundtrip = .ok "{\n  a = f /* c */ (\n\n      x # e\n  )\n\n # d\n\n ([ ]);\n}".toList := by decide
+example : grownSample.wf = true ∧ grownSample.noLeadingWs = true ∧ grownSample.basic = true := by decide
+example : (match grownSample.parse with | .ok s => s.beforeFlatB | _ => false) = true := by decide
 
 /-- a file with comments in many gaps that satisfies the hypotheses -/
 def fragSample : File :=
